@@ -73,6 +73,9 @@ theories/Refine_ops.vos theories/Refine_ops.vok theories/Refine_ops.required_vos
 theories/Refine_all.vo theories/Refine_all.glob theories/Refine_all.v.beautified theories/Refine_all.required_vo: theories/Refine_all.v theories/Base.vo theories/Vu64.vo theories/Vu64_proofs.vo theories/Hash.vo theories/KeyTypes.vo theories/KeyTypes_proofs.vo gen/Consts.vo theories/Sizing.vo theories/Alloc.vo theories/AllocInv.vo theories/AllocInv_proofs.vo theories/Htx.vo theories/Htx_proofs.vo theories/Store.vo theories/Spec.vo theories/Refine.vo theories/Refine_relink.vo theories/Refine_ops.vo
 theories/Refine_all.vio: theories/Refine_all.v theories/Base.vio theories/Vu64.vio theories/Vu64_proofs.vio theories/Hash.vio theories/KeyTypes.vio theories/KeyTypes_proofs.vio gen/Consts.vio theories/Sizing.vio theories/Alloc.vio theories/AllocInv.vio theories/AllocInv_proofs.vio theories/Htx.vio theories/Htx_proofs.vio theories/Store.vio theories/Spec.vio theories/Refine.vio theories/Refine_relink.vio theories/Refine_ops.vio
 theories/Refine_all.vos theories/Refine_all.vok theories/Refine_all.required_vos: theories/Refine_all.v theories/Base.vos theories/Vu64.vos theories/Vu64_proofs.vos theories/Hash.vos theories/KeyTypes.vos theories/KeyTypes_proofs.vos gen/Consts.vos theories/Sizing.vos theories/Alloc.vos theories/AllocInv.vos theories/AllocInv_proofs.vos theories/Htx.vos theories/Htx_proofs.vos theories/Store.vos theories/Spec.vos theories/Refine.vos theories/Refine_relink.vos theories/Refine_ops.vos
+theories/Buf.vo theories/Buf.glob theories/Buf.v.beautified theories/Buf.required_vo: theories/Buf.v theories/Base.vo
+theories/Buf.vio: theories/Buf.v theories/Base.vio
+theories/Buf.vos theories/Buf.vok theories/Buf.required_vos: theories/Buf.v theories/Base.vos
 theories/Bulk.vo theories/Bulk.glob theories/Bulk.v.beautified theories/Bulk.required_vo: theories/Bulk.v theories/Base.vo theories/KeyTypes.vo theories/Store.vo
 theories/Bulk.vio: theories/Bulk.v theories/Base.vio theories/KeyTypes.vio theories/Store.vio
 theories/Bulk.vos theories/Bulk.vok theories/Bulk.required_vos: theories/Bulk.v theories/Base.vos theories/KeyTypes.vos theories/Store.vos
